@@ -431,7 +431,7 @@ func runC13(c *Ctx, _ []string) {
 	nontrivial := 0
 	shapesFor := map[string][]string{"TEXT": {"text", "accent", "utf8", "b64", "crlf", "crlfcut", "crlflone", "crlfcut", "crlflone"}, "UTF": {"utf8", "text", "utf8bad", "utf8bad"}, "DNA": {"dna"}, "PACK": {"b64", "dna", "skewed", "runs"},
 		"EXE": {"exe"}, "MM": {"mm"}, "ROLZX": {"dna", "text", "random", "exe", "mm"}, "ROLZ": {"dna", "text", "random", "exe", "mm"},
-		"ZRLT": {"runs", "zeros"}, "RLT": {"runs", "zeros", "text"}, "BWT": {"text", "dna", "runs", "random"}, "BWTS": {"text", "runs"}}
+		"ZRLT": {"runs", "zeros"}, "RLT": {"runs", "zeros", "text", "runs+esc", "runs+esc"}, "BWT": {"text", "dna", "runs", "random"}, "BWTS": {"text", "runs"}}
 	hints := []string{"", "", "", "", "", "", "", "", "", "TEXT", "DNA", "EXE", "MULTIMEDIA", "BIN", "UTF8", "BASE64", "NUMERIC", "SMALL_ALPHABET"}
 	try := func(name, en, shape string, n int, hint string, dseed uint64) {
 		block := mkData(shape, n, dseed)
@@ -504,6 +504,14 @@ func runC13(c *Ctx, _ []string) {
 			if what != "" {
 				c.Violation(map[string]any{"what": fmt.Sprintf("BWT (jobs %d): %s", jobs, what), "transform": "BWT", "data": describe("text", n, uint64(700+i)), "jobs": jobs,
 					"key": fmt.Sprintf("impl:BWT above 4 MiB: %s", strings.SplitN(what, "(", 2)[0])})
+			}
+		}
+	}
+	// RLT with its default escape byte in the data (fast entropy codecs: the escape is 0xFB), also among the last bytes of the block
+	for _, en := range []string{"NONE", "HUFFMAN", "ANS0", "RANGE"} {
+		for _, n := range []int{64, 300, 2000, 20000} {
+			for sd := uint64(0); sd < 4; sd++ {
+				try("RLT", en, "runs+esc", n, "", 600+sd)
 			}
 		}
 	}
